@@ -1188,8 +1188,6 @@ class Interp(object):
         if t == "bound":
             return self.call_user(fr, ref[1], [ref[2]] + list(args), kwargs, node, self_av=ref[2])
         if t == "lib":
-            self.stats["libcalls"] += 1
-            self.emit("lib-call", fr, node, name=ref[1], args=args, kwargs=kwargs)
             return self.api.call_lib(self, fr, ref[1], args, kwargs, node)
         if t == "builtin":
             return self.api.call_builtin(self, fr, ref[1], args, kwargs, node)
